@@ -10,3 +10,5 @@ pub mod kyg;
 pub mod tbl;
 
 mod utils;
+#[cfg(cteenergymodel_verif)]
+pub mod verif_hooks;
